@@ -156,7 +156,7 @@ def generate(prop, seed, tier):
         si = g.randrange(len(sigs))
         dtype = 'bool' if g.random() < 0.15 else 'float64'
         leaves.append({'sig': si, 'dtype': dtype, 'spec': gen_leaf(g, sigs[si], dtype)})
-    enabled = [o for o in set(ALLOPS) if g.random() < 0.75] or ['add']
+    enabled = [o for o in sorted(set(ALLOPS)) if g.random() < 0.75] or ['add']
     pool = [o for o in ALLOPS if o in enabled]
     for i in range(nops):
         ops.append({'uid': i, 'op': g.choice(pool), 'a': [g.randrange(1 << 16) for _ in range(6)], 'seed': g.randrange(1 << 30)})
